@@ -1108,8 +1108,10 @@ def rt_designspace(family, frac=True, rules=True, empty_s=False, extra_glyph=Fal
         full = {**default_design, **loc}
         is_default = full == default_design
         if kind == "font":
-            # `s` is left without outline in the LAST non-default master (empty_s) or in the master of the given index (empty_s_index)
-            d = rt_master_font_desc(tagloc(loc), k, frac, empty_s=(empty_s and not is_default and k == len(sources) - 1) or k == empty_s_index, default=is_default)
+            # `s` is left without outline in the LAST non-default master (empty_s) or in the NON-DEFAULT master of the given index (empty_s_index);
+            # an empty default master next to non-empty ones is an incompatible (non-interpolatable) input, outside the property's domain:
+            # fontMath raises IndexError there (met with VERIF_SEED=4)
+            d = rt_master_font_desc(tagloc(loc), k, frac, empty_s=(empty_s and not is_default and k == len(sources) - 1) or (k == empty_s_index and not is_default), default=is_default)
             if extra_glyph and not is_default:
                 d["glyphs"]["only.here"] = {"width": 100}
             if not is_default:
